@@ -39,6 +39,14 @@ func runC04(c *Ctx) {
 	defer c04VariableLogic(c, "pkg/router")
 	c.Rule("C04.R9", "RPC routes evaluate all their configured headers on the header map (no diversion to HTTP request variables)", 1)
 	defer c04RPCHeadersAreHeaders(c, "pkg/router")
+	c.Rule("C04.R11", "the default virtual host is the last resort for every request: 'no virtual host' only without a default (decision table)", 1)
+	defer c04DefaultIsLastResort(c, "pkg/router")
+	c.Rule("C04.R12", "the host of an address without port is normalised like the host of one with a port (not the raw argument on every path)", 1)
+	defer c04HostLiteralNormalised(c, "pkg/router")
+	c.Rule("C04.R13", "a matcher constructor that can refuse its input has its result tested before it is stored into a route", 1)
+	defer c04NoNilMatcherStored(c, "pkg/router")
+	c.Rule("C04.R14", "the RPC rule's literal shortcut is armed only for a non-regex matcher", 1)
+	defer c04FastMatchOnlyLiteral(c, "pkg/router")
 	c.NotDecided = append(c.NotDecided, "results of header / regex / variable matchers on concrete values", "weighted-cluster randomness (C06)", "splitHostPortGraceful on malformed host:port values")
 
 	pkg := "pkg/router"
